@@ -337,6 +337,24 @@ impl Tree {
                     let text = link_text(dir, &tabs, *style);
                     std::os::unix::fs::symlink(&text, &path)?;
                     self.files.push(TFile { url: eurl, marker: marker("FILE", salt, &turl), kind: "link-to-file" });
+                    // shadow secrets: where a relative link text lands when it is resolved from another directory than the link's own
+                    // (the served root, a directory between the root and the link): if that is outside the root, a secret is planted there
+                    if !Path::new(&text).is_absolute() {
+                        let mut bases: Vec<PathBuf> = vec![self.root.clone()];
+                        let mut p = dir.parent();
+                        while let Some(q) = p { if q.starts_with(&self.root) && q != self.root { bases.push(q.to_path_buf()); p = q.parent(); } else { break; } }
+                        for b in bases {
+                            if b == dir { continue; }
+                            let mut cand = PathBuf::new();
+                            for c in b.join(&text).components() { match c { std::path::Component::ParentDir => { cand.pop(); } std::path::Component::CurDir => {} other => cand.push(other.as_os_str()) } }
+                            if cand.starts_with(&self.root) || !cand.starts_with(&self.base) || cand.exists() { continue; }
+                            if let Some(parent) = cand.parent() { if std::fs::create_dir_all(parent).is_err() { continue; } }
+                            let key = format!("shadow/{}", cand.display());
+                            if std::fs::write(&cand, content("SECRET", salt, &key, 120)).is_ok() {
+                                self.secrets.push(Secret { abs: cand.clone(), marker: marker("SECRET", salt, &key), up: 1, name: cand.file_name().map(|s| s.to_string_lossy().to_string()).unwrap_or_default(), shape: "link-text-resolved-from-another-directory" });
+                            }
+                        }
+                    }
                 }
                 EntrySpec::LinkChain { target, .. } => {
                     if files.is_empty() { names.pop(); continue; }
